@@ -67,6 +67,7 @@ def shards(tier, seed):
     out += [("width", sz) for sz in WIDTH_SIZES]
     out.append(("manyspecs",))
     out.append(("repeat",))
+    out += [("python-O", ("nospec",)), ("python-O", ("junk", 0, b["junk_len"])), ("python-O", ("seps", 0))]
     return out
 
 
@@ -120,6 +121,10 @@ def judge_grammar(specs, size, header, r):
 
 def run_shard(desc, tier):
     r = R()
+    if desc[0] == "python-O":
+        # the same family in an interpreter that runs with assert statements compiled away
+        from ..core import fresh
+        return fresh.optimized(__name__, tuple(desc[1]), tier)
     kind = desc[0]
     if kind in ("grammar", "grammar4"):
         _, size, k, first = desc
@@ -281,6 +286,10 @@ def finish(merged, tier):
 
 
 def replay(w):
+    import sys as _sys
+    if w.get("optimize") and not _sys.flags.optimize:
+        from ..core import fresh
+        return fresh.replay_optimized(__name__, w)
     if "before" in w:
         rr = run_shard(("repeat",), "quick")
         return bool(rr.viol), {"violations": sorted(rr.viol)}
